@@ -324,9 +324,13 @@ def pool_skeletons(tier, seed):
     for sk in lit + c17:
         sk.meta.setdefault("rule", None)
         sk.meta.setdefault("first_line", max(0, sk.text.count("\n") - 12))
+    from . import rulefam  # hand-written per-rule programs and string-layout programs (DESIGN 12, round 3)
+
+    fam = rulefam.skeletons()
+    lay = rulefam.layout_skeletons()
     if tier == "quick":
-        return rnd.sample(hv, min(len(hv), 90)) + gr + rnd.sample(lit, 25) + rnd.sample(c17, 20)
-    return hv + gr + lit[::3] + c17[::3]
+        return rnd.sample(hv, min(len(hv), 90)) + gr + rnd.sample(lit, 25) + rnd.sample(c17, 20) + rnd.sample(fam, 40) + lay
+    return hv + gr + lit[::3] + c17[::3] + fam + lay
 
 
 # ---------------------------------------------------------------------------------------------------
